@@ -71,17 +71,19 @@ Section Coo.
   Definition set_nth {A} (k : nat) (v : A) (l : list A) : list A :=
     if k <? length l then firstn k l ++ v :: skipn (S k) l else l.
 
-  Definition coo_dot (c : coo R) (x : list R) (D : list nat) : option (list R) :=
+  (* the result has nr entries (zeros_like(x): nr = len(x), square data only; np.zeros(shape[0]): rectangular data) *)
+  Definition coo_dot_n (nr : nat) (c : coo R) (x : list R) (D : list nat) : option (list R) :=
     let rows := nth 0 (c_indices c) [] in
     let cols := nth 1 (c_indices c) [] in
-    let n := length x in
     if (length rows =? length (c_data c)) && (length cols =? length (c_data c))
-       && forallb (fun r => r <? n) rows && forallb (fun k => k <? n) cols && forallb (fun d => d <? n) D
+       && forallb (fun r => r <? nr) rows && forallb (fun k => k <? length x) cols
+       && forallb (fun d => (d <? nr) && (d <? length x)) D
     then
       let z := map (fun r => sumn rO radd (length (c_data c)) (fun k =>
-                 if nth k rows 0 =? r then rmul (nth k (c_data c) rO) (nth (nth k cols 0) x rO) else rO)) (seq 0 n) in
+                 if nth k rows 0 =? r then rmul (nth k (c_data c) rO) (nth (nth k cols 0) x rO) else rO)) (seq 0 nr) in
       Some (fold_left (fun z d => set_nth d (nth d x rO) z) D z)
     else None.                                          (* IndexError *)
+  Definition coo_dot (c : coo R) (x : list R) (D : list nat) : option (list R) := coo_dot_n (length x) c x D.
 
   (* dense matrix times vector *)
   Definition matvec (A : list (list R)) (x : list R) : list R :=
